@@ -590,3 +590,54 @@ package zygo
 //@ C04 loop 0 invariant idle: old(env.pc == -1 || env.pc >= ite(env.curfunc.user, 0, len(env.curfunc.fun))) ==> env.pc == old(env.pc) && env.curfunc == old(env.curfunc)
 //@ |  && env.curfunc.user == old(env.curfunc.user) && len(env.curfunc.fun) == old(len(env.curfunc.fun)) && env.datastack.tos == old(env.datastack.tos)
 //@ C04 ensures empty-input: old(env.pc != -1 && env.curfunc != nil && !env.curfunc.user && env.pc >= len(env.curfunc.fun) && env.datastack.tos == -1) ==> r1 == nil && r0 == SexpNull && env.datastack.tos == -1
+
+// ===========================================================================
+// C09  tail calls: the tail flag reaches exactly the last positions
+// ===========================================================================
+// A generator's Tail flag belongs to that generator: compiling a sub-form with
+// one generator never changes the flag of another one (assumed frame for the
+// whole Generate family: the induction over program structure is not mechanised),
+// and a successful compile leaves the receiver's own flag as it found it.
+//@ clauseall \(\*Generator\)\.(Generate[A-Za-z]*|generateSyntaxQuote[A-Za-z]*) :: assume preserves Generator.Tail except gen
+//@ clauseall \(\*Generator\)\.(Generate[A-Za-z]*|generateSyntaxQuote[A-Za-z]*) :: assume preserves Generator.funcname
+//@ clauseall \(\*Generator\)\.(Generate|GenerateCall|GenerateCallBySymbol|GenerateArray|GenerateAll) :: assume C09 ensures keeps-own-tail: r0 == nil ==> gen.Tail == old(gen.Tail)
+
+//@ func (*Generator).Reset
+//@ C09 ensures !gen.Tail
+//@ C09 preserves Generator.Tail except gen
+
+//@ func (*Generator).NewSubGenerator
+//@ C09 ensures fresh(r0) && !r0.Tail
+//@ C09 preserves Generator.Tail
+
+//@ func NewGenerator
+//@ C09 ensures fresh(r0) && !r0.Tail
+//@ C09 preserves Generator.Tail
+
+//@ func (*Generator).AddInstruction
+//@ C09 preserves Generator.Tail
+//@ func (*Generator).AddInstructions
+//@ C09 modifies gen.instructions, elems(gen.instructions)
+
+// begin: every form but the last is compiled with the flag off, the last one with the caller's flag
+//@ func (*Generator).GenerateBegin
+//@ C09 assert nonfinal-forms-not-tail @before call Generate[0]: !gen.Tail
+//@ C09 assert final-form-inherits @before call Generate[1]: gen.Tail == old(gen.Tail)
+//@ C09 loop 0 invariant !gen.Tail
+
+// let / letseq: binding values are never in tail position; the body is
+//@ func (*Generator).GenerateLet
+//@ C09 assert letseq-binding-not-tail @before call Generate[0]: !gen.Tail
+//@ C09 assert let-binding-not-tail @before call Generate[1]: !gen.Tail
+//@ C09 assert body-inherits @before call GenerateBegin[0]: gen.Tail == old(gen.Tail)
+
+// cond: predicates are never in tail position; every arm and the default are
+//@ func (*Generator).GenerateCond
+//@ C09 assert default-inherits @before call Generate[0]: arg0.Tail == old(gen.Tail)
+//@ C09 assert predicate-not-tail @before call Generate[1]: !arg0.Tail
+//@ C09 assert arm-inherits @before call Generate[2]: arg0.Tail == old(gen.Tail)
+
+// and / or: only the last operand is in tail position
+//@ func (*Generator).GenerateShortCircuit
+//@ C09 assert last-inherits @before call Generate[0]: arg0.Tail == old(gen.Tail)
+//@ C09 assert earlier-not-tail @before call Generate[1]: !arg0.Tail
